@@ -143,3 +143,26 @@ Example ex_judge_placeholder : N.land (judge "duckdb" "zq" ["t"] "SELECT {a: T.a
 Proof. vm_compute. reflexivity. Qed.
 Example ex_judge_leak : N.land (judge "sqlite" "zq" ["t"] "SELECT zq1 AS x FROM t AS T") 16 = 0%N.
 Proof. vm_compute. reflexivity. Qed.
+
+(* ---------- the order of the UNNEST items of a FROM list (Core/Unnest.v, model of SortUnnestings) ---------- *)
+From LV Require Import Core.Unnest Core.UnnestProofs.
+From Coq Require Import Permutation.
+
+Theorem C09_unnest_order_is_a_permutation :
+  forall us out, NoDup (map fst us) -> sort_unnestings us = Some out -> Permutation us out.
+Proof. exact sort_is_permutation. Qed.
+
+Theorem C09_unnest_order_is_scoped :
+  forall us out, sort_unnestings us = Some out -> scoped_order (map fst us) [] out = true.
+Proof. exact sort_is_scoped. Qed.
+
+Theorem C09_unnest_rejected_only_when_circular :
+  forall us out', Permutation us out' -> scoped_order (map fst us) [] out' = true -> sort_unnestings us <> None.
+Proof. exact sort_rejects_only_cycles. Qed.
+
+Example ex_unnest_sorted :
+  sort_unnestings [("x_2", ["x_10"; "a"]); ("x_10", []); ("x_1", ["x_2"])]%string =
+  Some [("x_10", []); ("x_2", ["x_10"; "a"]); ("x_1", ["x_2"])]%string.
+Proof. reflexivity. Qed.
+Example ex_unnest_circular : sort_unnestings [("x_1", ["x_2"]); ("x_2", ["x_1"])]%string = None.
+Proof. reflexivity. Qed.
